@@ -15,13 +15,17 @@ def cps0(s): return ','.join(str(ord(c)) for c in s)
 STRS = ['', 'a', 'yes', 'No', '1', '1.5', '1:30', '~', 'null', '<<', '=', '0x1F', '1e3', '.inf', '2001-01-01', 'a b', ' a', 'a\n', 'é', '---', 'x' * 40, '- a', 'k: v', '!t', '&a',
         '*a', '12e03', '1_000', '0b1', '+.5', '08', '2001-12-14 21:59:43.10 -5', 'a\nb', 'a\n\nb ', '\ta', 'a\tb', "it's", '"q"', 'a: b', '# c', 'a #b', '\x85', 'a\x85b', ' ', '﻿',
         'a﻿b', '\x07', '\x1b[0m', '\U0001F600', '퟿', '', '�', ' a a', 'a  b', 'word ' * 20, '...', '%x', '@x', '`x', '[x', '{x', ']', '}', ',', '?', '? x', '-', '- ', ':', 'a:', ':a',
-        'tru', 'True', 'OFF', '0o17', '1__0', '._', '.5', '5.', '1e5', '+1', '-0', '0.0', 'nan', '.NaN', 'inf', '1:2:3', '60:00', '2001-1-1', '2001-12-14T21:59:43Z']
+        'tru', 'True', 'OFF', '0o17', '1__0', '._', '.5', '5.', '1e5', '+1', '-0', '0.0', 'nan', '.NaN', 'inf', '1:2:3', '60:00', '2001-1-1', '2001-12-14T21:59:43Z',
+        # indicator characters inside a word: only some positions / contexts make them indicators (the dumper's analysis and the scanners of both back-ends must agree)
+        'a?b', 'what?no', 'x?y=z', 'a,b', 'a[b', 'a]b', 'a{b}', 'a#b', 'a:b', 'a-b', 'a|b', 'a>b', 'a&b', 'a*b', 'a!b', 'a%b', 'a@b', 'a`b', 'x- y', 'x? y', 'http://a.b/c?d=e&f']
 def rfloat(rng):
     r = rng.random()
     if r < 0.15: return rng.choice([0.0, -0.0, 1.0, -1.5, 1e16, 1e15, 1e17, 1e-4, 1e-5, 123456789012345680.0, 0.1, 0.2 + 0.1, 1 / 3, 2.5e-324, 1.7976931348623157e308, float('inf'), float('-inf'), float('nan'), 1e22, 1e23, 5e-324, 9007199254740993.0, 0.30000000000000004, 100.0, 1e21, 123e-7])
     if r < 0.6: return struct.unpack('<d', struct.pack('<Q', rng.getrandbits(64)))[0]
     return rng.choice([rng.random(), rng.uniform(-1e6, 1e6), rng.randint(-10 ** 6, 10 ** 6) / rng.choice([1, 2, 4, 8, 10, 100, 1000]), 10.0 ** rng.randint(-30, 30) * rng.random()])
-def rdate(rng): return datetime.date(rng.randint(1, 9999), rng.randint(1, 12), rng.randint(1, 28))
+def rdate(rng):
+    if rng.random() < 0.3: return datetime.date(2001, 12, 14 + rng.choice([0, 0, 1]))          # a small pool, so that equal dates recur inside one value
+    return datetime.date(rng.randint(1, 9999), rng.randint(1, 12), rng.randint(1, 28))
 def rdt(rng, odd_tz=True):
     tzs = [None, None, datetime.timezone.utc, datetime.timezone(datetime.timedelta(hours=rng.randint(-12, 12), minutes=rng.choice([0, 30, 45])))]
     if odd_tz: tzs.append(datetime.timezone(datetime.timedelta(seconds=rng.randint(-80000, 80000))))
@@ -88,6 +92,23 @@ def encode(root):
         cells[a] = c.strip(); return 'R %d' % a
     r = val(root)
     return ' '.join(cells + ['ROOT', r])
+
+def share_dates(root):
+    """the same graph with equal date / datetime leaves (list items, dict values, set members stay as they are) replaced by ONE
+    object each: the representer anchors an object that occurs twice unless ignore_aliases says otherwise, and dates are the
+    only safe-universe scalars for which it does not."""
+    canon = {}; seen = set()
+    def c(o):
+        if isinstance(o, datetime.date): return canon.setdefault((type(o), o, o.utcoffset() if isinstance(o, datetime.datetime) else None), o)
+        return o
+    def walk(o):
+        if id(o) in seen: return
+        seen.add(id(o))
+        if isinstance(o, list):
+            for i, x in enumerate(o): o[i] = c(x); walk(o[i])
+        elif isinstance(o, dict):
+            for k in list(o): o[k] = c(o[k]); walk(o[k])
+    root = c(root); walk(root); return root
 
 def decode(text):
     """inverse of encode (same sharing / cycles).  Containers are created first, then filled."""
